@@ -19,6 +19,13 @@ oracle:         on the real library, independent of the model, for one document 
                 that first appear during a failed call are output scratch state, not document content: counted, and left out
                 of the comparison from then on) and every later output is compared with the earlier ones of its kind.  The
                 model is driven through the same histories (Render.Call: failedEarly / failedLate = metaxml() had not / had run).
+                Documents with REPEATED names of named things (font faces, styles in both containers / two families / renamed to a
+                taken name, master pages, page layouts, metadata entries, settings, bookmarks, sections, tables) and documents whose
+                media type has surrounding white space (loaded from a package whose mimetype member was rewritten with zipfile -
+                'echo ... > mimetype' -, or handed to OpenDocument(); also an embedded object's) are documents too (builders 5-7;
+                theorems: OdfModel.Props.C12Named).  The snapshot asks EVERY query the tree gives rise to: getElementsByType for
+                every element name a plain traversal finds (same objects, same order, same content), getStyleByName for every
+                value of an attribute called name, getMediaType() / doc.mimetype / the top node's office:mimetype.
 """
 import io, os, zipfile, json, itertools, tempfile, shutil, atexit
 from common import enc_str
@@ -81,13 +88,130 @@ def gen_recipes(rng):
                     'foreign': rng.choice(['Other/1.0', 'LibreOffice/7.4$Linux', 'X']),
                     'nstyles': rng.randint(1, 3), 'settings': rng.randint(1, 2), 'npics': rng.randint(1, 2),
                     'genpos': rng.choice(['first', 'middle', 'last'])})
+    # documents with REPEATED names of named things, and documents whose media type has surrounding white space
+    # (5: built in memory; 6: loaded from a package zipped by hand, mimetype member with a line end; 7: OpenDocument(u'...\n'))
+    for k in (5, 6, 7):
+        out.append({'builder': k, 'npar': rng.randint(1, 3), 'title': rng.choice(['T', u'Titel é']),
+                    'foreign': rng.choice(['Other/1.0', 'X']), 'nstyles': rng.randint(1, 3), 'settings': 1, 'npics': 1,
+                    'genpos': rng.choice(['first', 'middle', 'last']),
+                    'nfonts': rng.randint(1, 3), 'fontrep': rng.choice(['first', 'last', 'all', 'thrice']),
+                    'mime_lead': rng.choice([u'', u'', u' ', u'\n']) if k != 5 else u'',
+                    'mime_trail': rng.choice([u'\n', u'\r\n', u' ', u'\t', u'\n\n']) if k != 5 else u''})
     return out
+
+
+def fill_repeated(d, r):
+    """a text document in which named things bear REPEATED names: font faces (a converter that declares a font wherever it uses
+    one), styles (one name in office:styles and in office:automatic-styles, in two families; one renamed to an existing name after
+    it was added), master pages, page layouts, metadata entries, settings, bookmarks/sections/tables in the body"""
+    from odf import text, style, dc, meta, config, table
+    for g in list(d.meta.childNodes):
+        d.meta.removeChild(g)
+    items = [dc.Title(text=r['title']), dc.Title(text=u'second title'), meta.UserDefined(name=u'k', text=u'v'),
+             meta.UserDefined(name=u'k', text=u'w'), dc.Creator(text=u'me'), meta.Keyword(text=u'kw'), meta.Keyword(text=u'kw')]
+    items.insert({'first': 0, 'middle': 3, 'last': len(items)}[r['genpos']], meta.Generator(text=r['foreign']))
+    for it in items:
+        d.meta.addElement(it)
+    for i in range(2):
+        cs = config.ConfigItemSet(name=u'ooo:view-settings')
+        cs.addElement(config.ConfigItem(name=u'Zoom', type=u'short', text=u'100'))
+        cs.addElement(config.ConfigItem(name=u'Zoom', type=u'short', text=u'%d' % (90 + i)))
+        d.settings.addElement(cs)
+    # fonts
+    fonts = [(u'Font %d' % i, u'Family %d' % i) for i in range(r['nfonts'])]
+    decl = list(fonts)
+    rep = r['fontrep']
+    if rep == 'first':
+        decl.append(fonts[0])
+    elif rep == 'last':
+        decl.insert(0, fonts[-1])
+    elif rep == 'all':
+        decl += fonts
+    else:
+        decl = [fonts[0]] + decl + [fonts[0]]
+    for j, (n, fam) in enumerate(decl):
+        d.fontfacedecls.addElement(style.FontFace(name=n, fontfamily=fam, fontpitch=u'variable' if j % 2 else u'fixed'))
+    # styles
+    d.styles.addElement(style.Style(name=u'Common', family=u'paragraph'))
+    d.styles.addElement(style.Style(name=u'Dup', family=u'paragraph'))
+    names = []
+    for i in range(r['nstyles']):
+        st = style.Style(name=u'P%d' % i, family=u'paragraph', parentstylename=u'Common')
+        st.addElement(style.TextProperties(fontname=fonts[i % len(fonts)][0]))
+        d.automaticstyles.addElement(st); names.append(u'P%d' % i)
+    d.automaticstyles.addElement(style.Style(name=u'Dup', family=u'text'))          # the same name in the other container and family
+    late = style.Style(name=u'Late', family=u'text'); d.automaticstyles.addElement(late)
+    late.setAttribute('name', u'P0')                                               # renamed to a name that is taken
+    d.automaticstyles.addElement(style.Style(name=u'Unused', family=u'text'))
+    for i in range(2):
+        d.automaticstyles.addElement(style.PageLayout(name=u'pm1'))
+    d.automaticstyles.addElement(style.Style(name=u'HdrP', family=u'paragraph'))
+    for i in range(2):
+        mp = style.MasterPage(name=u'Standard', pagelayoutname=u'pm1'); d.masterstyles.addElement(mp)
+        h = style.Header(); mp.addElement(h); h.addElement(text.P(stylename=u'HdrP', text=u'header %d' % i))
+    # body
+    for i in range(r['npar']):
+        p = text.P(stylename=names[i % len(names)], text=u'para %d & <x>' % i)
+        p.addElement(text.Bookmark(name=u'mark'))
+        p.addElement(text.Span(text=u' span ', stylename=u'Dup'))
+        d.text.addElement(p)
+    for i in range(2):
+        sec = text.Section(name=u'Sec'); sec.addElement(text.P(stylename=u'P0', text=u'in section')); d.text.addElement(sec)
+        t = table.Table(name=u'Tab'); t.addElement(table.TableColumn()); tr = table.TableRow(); t.addElement(tr)
+        c = table.TableCell(); c.addElement(text.P(text=u'cell')); tr.addElement(c); d.text.addElement(t)
+    d.text.addElement(text.H(outlinelevel=1, text=u'Heading'))
+
+
+def rezip(data, change):
+    """the package `data` zipped again member by member (zipfile only); change(name, bytes) gives the new bytes of a member"""
+    zin = zipfile.ZipFile(io.BytesIO(data))
+    buf = io.BytesIO()
+    zout = zipfile.ZipFile(buf, 'w')
+    for zi in zin.infolist():
+        zout.writestr(zi, change(zi.filename, zin.read(zi.filename)))
+    zout.close()
+    return buf.getvalue()
+
+
+def build_named(r):
+    from odf import opendocument, office, style, table, draw, text
+    k = r['builder']
+    MT = u'application/vnd.oasis.opendocument.text'
+    ws = lambda m: r['mime_lead'] + m + r['mime_trail']
+    if k == 5:
+        d = opendocument.OpenDocumentText()
+        fill_repeated(d, r)
+        return d
+    if k == 6:
+        # a package zipped by hand: echo application/vnd... > mimetype
+        d = opendocument.OpenDocumentText()
+        fill_repeated(d, r)
+        d.addPicture(u'Pictures/img0.png', u'image/png', PNG + b'6')
+        buf = io.BytesIO(); d.save(buf)
+        data = rezip(buf.getvalue(), lambda name, raw: ws(raw.decode('utf-8')).encode('utf-8') if name == 'mimetype' else raw)
+        return opendocument.load(io.BytesIO(data))
+    # k == 7: the media type handed to the constructor, of the document and of an object embedded in it
+    d = opendocument.OpenDocument(ws(MT))
+    d.text = office.Text(); d.body.addElement(d.text)
+    fill_repeated(d, dict(r, fontrep='first' if r['fontrep'] == 'all' else 'all'))
+    sub = opendocument.OpenDocument(ws(u'application/vnd.oasis.opendocument.spreadsheet'))
+    sub.spreadsheet = office.Spreadsheet(); sub.body.addElement(sub.spreadsheet)
+    t = table.Table(name=u'Sub'); t.addElement(table.TableColumn()); tr = table.TableRow(); t.addElement(tr)
+    tr.addElement(table.TableCell()); sub.spreadsheet.addElement(t)
+    for i in range(2):
+        sub.fontfacedecls.addElement(style.FontFace(name=u'Sub Font', fontfamily=u'Sub Family %d' % i))
+    ref = d.addObject(sub)
+    fr = draw.Frame(width=u'3cm', height=u'3cm', anchortype=u'paragraph'); fr.addElement(draw.Object(href=ref))
+    par = text.P(); par.addElement(fr); d.text.addElement(par)
+    return d
 
 
 def build(r):
     from odf import opendocument, text, style, dc, meta, config, draw, number, table, office
     from odf.element import Text
     k = r['builder']
+    if k >= 5:
+        return build_named(r)
     mk = [opendocument.OpenDocumentText, opendocument.OpenDocumentSpreadsheet, opendocument.OpenDocumentText,
           opendocument.OpenDocumentPresentation, opendocument.OpenDocumentText][k]
     d = mk()
@@ -211,6 +335,48 @@ def tree_with_links(n, parent, doc, bad):
     return (tuple(n.qname), tuple(sorted((tuple(q), u'%s' % (v,)) for q, v in n.attributes.items())), kids)
 
 
+def walk_names(n, qnames, names):
+    """plain traversal: the element names in the tree, and the values of the attributes called name"""
+    if n.nodeType != 1:
+        return
+    qnames.add(tuple(n.qname))
+    for q, v in n.attributes.items():
+        if q[1] == u'name':
+            names.add(u'%s' % (v,))
+    for c in n.childNodes:
+        walk_names(c, qnames, names)
+
+
+def strip_gen(t):
+    """an infoset without the meta:generator children of office:meta (they are judged separately: split_generator)"""
+    if not isinstance(t, tuple):
+        return t
+    kids = t[2]
+    if t[0] == (OFFICE, u'meta'):
+        kids = tuple(k for k in kids if not (isinstance(k, tuple) and k[0] == GEN))
+        merged = []
+        for k in kids:                      # text on both sides of a generator taken out is one run of text
+            if merged and not isinstance(k, tuple) and not isinstance(merged[-1], tuple):
+                merged[-1] = merged[-1] + k
+            else:
+                merged.append(k)
+        kids = tuple(merged)
+    return (t[0], t[1], tuple(strip_gen(k) for k in kids))
+
+
+_FACTORIES = {}
+
+
+def factory(qn):
+    """what getElementsByType wants: a function that makes an element of that name"""
+    if qn not in _FACTORIES:
+        from odf.element import Element
+        def make(**kw):
+            return Element(qname=qn, **kw)
+        _FACTORIES[qn] = make
+    return _FACTORIES[qn]
+
+
 def snapshot(doc, depth=0, world=None):
     from odf import text, style, meta, dc, config, draw, table, number
     bad = []
@@ -227,6 +393,16 @@ def snapshot(doc, depth=0, world=None):
     s['byType'] = q
     s['byName'] = tuple((n, (lambda e: None if e is None else mem_infoset(e))(doc.getStyleByName(n)))
                         for n in (u'Common', u'P0', u'P1', u'Unused', u'ce1', u'HdrP', u'pm1', u'N1', u'Nope'))
+    # every query the document answers about what the plain traversal finds in it: getElementsByType for every element
+    # name in the tree (which elements - the same objects -, in which order, holding what), getStyleByName for every
+    # style:name / *:name value in the tree, getMediaType().  meta:generator is judged separately (split_generator).
+    qnames, names = set(), set()
+    walk_names(doc.topnode, qnames, names)
+    s['byTypeAll'] = tuple((qn, tuple((id(e), strip_gen(mem_infoset(e))) for e in doc.getElementsByType(factory(qn))))
+                           for qn in sorted(qnames) if qn != GEN)
+    s['byNameAll'] = tuple((n, (lambda e: None if e is None else (id(e), strip_gen(mem_infoset(e))))(doc.getStyleByName(n)))
+                           for n in sorted(names))
+    s['mediatype'] = (doc.getMediaType(), doc.mimetype, u'%s' % (doc.topnode.getAttrNS(OFFICE, u'mimetype'),))
     s['pictures'] = tuple((k, tuple(v)) for k, v in doc.Pictures.items())
     s['thumbnail'] = doc.thumbnail
     s['extra'] = tuple((o.filename, o.mediatype, o.content) for o in doc._extra)
@@ -729,11 +905,13 @@ def run_world(chk, recipes, calls, tv):
 def world_histories(chk, recipes):
     """(recipes of the world, calls); document indices are taken modulo the number of live documents"""
     worlds = [[0, 1], [3, 4], [2], [2, 0], [1, 2, 3]]
+    if len(recipes) > 7:
+        worlds += [[5, 6], [7, 4]]            # repeated names / media types with white space among other live documents
     nlong, nshort = (6, 60) if chk.tier == 'thorough' else (2, 12)
     NORM = ['save', 'write', 'xml', 'metaxml']
     for w in worlds:
         rs = [recipes[k] for k in w]
-        nlive = len(w) + 2 * w.count(2)
+        nlive = len(w) + 2 * w.count(2) + w.count(7)
         for _ in range(nlong):
             yield rs, [(chk.rng.randrange(nlive), chk.rng.choice(OPS)) for _ in range(30)]
         for _ in range(nshort):
@@ -748,7 +926,7 @@ def world_histories(chk, recipes):
     flip = 0
     for w in worlds:
         rs = [recipes[k] for k in w]
-        nlive = len(w) + 2 * w.count(2)
+        nlive = len(w) + 2 * w.count(2) + w.count(7)
         for a in range(nlive):
             for b in range(nlive):
                 if a == b:
@@ -760,7 +938,7 @@ def world_histories(chk, recipes):
     # faulty calls among several live documents
     for w in worlds:
         rs = [recipes[k] for k in w]
-        nlive = len(w) + 2 * w.count(2)
+        nlive = len(w) + 2 * w.count(2) + w.count(7)
         for _ in range(12 if chk.tier == 'thorough' else 3):
             a = chk.rng.randrange(nlive); b = chk.rng.randrange(nlive)
             op = chk.rng.choice(PKG)
@@ -810,7 +988,7 @@ def sequences(chk, nrecipes):
     seqs = []
     for r in range(nrecipes):
         if chk.tier == 'thorough':
-            for n in range(1, 5):
+            for n in range(1, 5 if r < 5 else 4):      # the documents added later (builders 5..): exhaustive up to length 3
                 for t in itertools.product(OPS, repeat=n):
                     seqs.append((r, list(t)))
         else:
@@ -863,6 +1041,9 @@ def run(chk, replay=None):
                 'snapshotted after every call; histories with save()/write() calls that RAISE part-way (the caller\'s stream raises at its '
                 'n-th write, a picture file is missing at that moment, the target directory does not exist) between, before and after '
                 'calls that get through; sandwiches (package of b, package of a, package of b) over the ordered pairs of live documents; '
+                '3 more documents: named things with REPEATED names (font faces, styles, master pages, metadata, settings, body), built in '
+                'memory / loaded from a package zipped by hand whose mimetype member has white space around it / made by OpenDocument(media '
+                'type with white space) with an embedded object of that kind; '
                 'non-trivial = at least two calls')
     T = translate_styles.tables()
     tv = TOOLSVERSION
@@ -881,7 +1062,7 @@ def run(chk, replay=None):
         print('replay: recipe %d, calls %s: %d failures' % (inp['recipe']['builder'], inp['ops'], len(chk.failures)))
         return 1 if len(chk.failures) + len(chk.known_hits) > before else 0
     translate_styles.translate(chk)           # drv_render uses the generated followed-attribute list
-    chk.prove(modules=['OdfModel.Props.C12', 'OdfModel.Props.C12Fault'], drivers=['drv_render'])
+    chk.prove(modules=['OdfModel.Props.C12', 'OdfModel.Props.C12Fault', 'OdfModel.Props.C12Named'], drivers=['drv_render'])
     drv = chk.driver('drv_render')
     recipes = gen_recipes(chk.rng)
     lines, pend = [], []
